@@ -13,13 +13,14 @@ PROPERTY = "C10"
 LEVEL = "exploration"
 BUDGET_S = {"quick": 45, "thorough": 600}
 FLOOR = {"quick": 1500, "thorough": 15000}
-MUST_REACH = ("resequence_returns_judged", "resequence_raises_judged", "addrgroup_resequence_judged", "grouped_shapes", "mixed_shapes")
+MUST_REACH = ("resequence_returns_judged", "resequence_raises_judged", "addrgroup_resequence_judged", "grouped_shapes", "mixed_shapes", "calls_after_a_raise", "nested_group_members")
 RULE = ("ACL shapes: flat, grouped by remark prefix (blocks of 1..n items), ACLs with previous numbering (none, partial, "
         "arbitrary, duplicates), 1..14 lines, both platforms; AceGroup objects; address groups of 1..8 members; start in "
         "{0, 1, 10, random, 2^32-1-n*d-1..+1, 2^32-1, 2^32, -1, -5}, step in {-5, 0, 1, 7, 10, 2^31, random}. judged = "
         "monitor evaluations of outermost calls (normal returns and raises); distinct non-trivial = (class, platform, "
         "shape, start class, step class, outcome)")
 ASSUMPTIONS = ["an empty ACL returns `start` (nothing to number) and is not judged",
+               "a call that follows a raising call on the same object is judged like any other (resequence renumbers everything)",
                "partial renumbering before a raise is not judged",
                "the block-level sequence attribute of an AceGroup is not part of the property (remarks and ACEs carry the numbers)"]
 
@@ -160,11 +161,16 @@ def execute(ctx, case: dict) -> None:
         obj = AceGroup(case["text"], platform=platform)
     else:
         obj = AddrGroup(case["text"], platform=platform)
+        for idx, items in case.get("nested", {}).items():
+            # a group-object entry whose own members were resolved: it is still one line of this group
+            if int(idx) < len(obj.items) and obj.items[int(idx)].addrgroup:
+                obj.items[int(idx)].items = list(items)
+                ctx.count("nested_group_members")
     for start, step in case["calls"]:
         try:
             obj.resequence(start, step) if step is not None else obj.resequence(start)
         except ValueError:
-            break  # state after a raising call is not judged
+            ctx.count("calls_after_a_raise")  # the partial numbering is not judged, the next call on the same object is
         except Exception:  # pylint: disable=broad-except
             break
     _drain(case, ctx)
@@ -222,9 +228,14 @@ def gen_cases(ctx):
                     text = f"{rng.randint(1, 999)} {text}"
                 members.append(text)
             header = "object-group network G1" if platform == "ios" else "object-group ip address G1"
+            nested = {}
+            if platform == "ios" and rng.random() < 0.4:
+                pos = rng.randint(0, len(members))
+                members.insert(pos, "group-object NESTED")
+                nested[str(pos)] = ["host 10.9.9.1", "10.9.8.0 255.255.255.0", "host 10.9.9.2"][:rng.randint(2, 3)]
             count = len(members)
             yield {"cls": "AddrGroup", "platform": platform, "text": header + "\n" + "\n".join(" " + m for m in members),
-                   "calls": [_start_step(rng, count) for _ in range(rng.randint(1, 2))], "n": count}
+                   "calls": [_start_step(rng, count) for _ in range(rng.randint(1, 3))], "n": count, "nested": nested}
 
 
 def _cls(val, count=1) -> str:
